@@ -167,7 +167,10 @@ class Worker:
     def __init__(self, build="chk", extra_env=None, wrapper=None):
         self.build = build
         self.path = worker_path(build)
-        self.extra_env = extra_env or {}
+        self.extra_env = dict(extra_env or {})
+        if build == "asan":
+            # leaks are not a property here (LLVMGetDefaultTargetTriple leaks 20 bytes once per process)
+            self.extra_env.setdefault("ASAN_OPTIONS", "detect_leaks=0:halt_on_error=1:abort_on_error=0")
         self.wrapper = wrapper or []
         self.proc = None
         self.errfile = None
@@ -223,8 +226,16 @@ class Worker:
         tail = self._stderr_tail()
         lines = [l for l in tail.splitlines() if l.strip()]
         if "AddressSanitizer" in tail or "ERROR: LeakSanitizer" in tail:
+            if "AddressSanitizer: SEGV" in tail or "AddressSanitizer: stack-overflow" in tail:
+                # the sanitizer's signal handler reporting an ordinary crash: same verdict as on the native build
+                if "stack-overflow" in tail:
+                    return Crash("stack_overflow", "main thread overflowed its stack", tail)
+                return Crash("signal", "SIGSEGV", tail)
+            import re as _re
             first = next((l for l in lines if "ERROR: AddressSanitizer" in l), "AddressSanitizer report")
-            return Crash("sanitizer", first.strip()[:300], tail)
+            first = _re.sub(r"0x[0-9a-f]+|\b\d+\b|==", "", first).strip()
+            frame = _re.search(r"(src/(?:alpha|delta)/[A-Za-z0-9_/]+\.rs)", tail)
+            return Crash("sanitizer", "%s (%s)" % (first[:200], frame.group(1) if frame else "?"), tail)
         if "has overflowed its stack" in tail:
             return Crash("stack_overflow", "main thread overflowed its stack", tail)
         llvm = [l for l in lines if not l.startswith("PV-PANIC")]
